@@ -887,6 +887,8 @@ func cacheMain(args []string) error {
 		return cacheReplay(args[1:])
 	case "conc":
 		return cacheConc(args[1:])
+	case "lat":
+		return cacheLat(args[1:])
 	}
 	return fmt.Errorf("cache: unknown mode %q", args[0])
 }
